@@ -56,7 +56,7 @@ pub fn sweeps(ctx: &Ctx) -> Vec<Sweep> {
         let st = crate::c01::stores();
         let few: Vec<Vec<u8>> = [0usize, 5, 40, 100].iter().map(|i| st[*i].clone()).collect();
         crate::c01::run_headers("types-sig", true, 2, &[1000, 1001], &[0, -1], &[0, 1, 2], &few, &[b"pay"])
-    }, crate::c01::run_empty_and_truncated(), crate::c01::run_lead()]
+    }, crate::c01::run_empty_and_truncated(), crate::c01::run_lead(), crate::c01::run_section_edges()]
 }
 
 pub fn run(ctx: &Ctx) -> i32 {
@@ -68,6 +68,7 @@ pub fn run(ctx: &Ctx) -> i32 {
     let (s_ts, _ev) = run_sweep(ctx, &sw[4]);
     let (s_et, _ev) = run_sweep(ctx, &sw[5]);
     let (s_ld, _ev) = run_sweep(ctx, &sw[6]);
+    let (s_se, _ev) = run_sweep(ctx, &sw[7]);
     // the public header API: Header::clear() / Header::new_empty() on the signature header
     let mut h = Acc::new();
     {
@@ -107,6 +108,42 @@ pub fn run(ctx: &Ctx) -> i32 {
         }
     }
     let s_api = SubReport::new("header-api", "A", "assets and built packages (unsigned / Ed25519 / RSA-2048) after Header::clear() on the signature header, Header::new_empty(), clear_signatures() and their combination: offsets vs the written bytes", h);
+    // packages as the builder hands them over (never re-parsed): the reachable residues mod 8 of the main header's data section,
+    // in the ordinary and in the large-file layout, unsigned and signed
+    let mut bd = Acc::new();
+    {
+        let env = crate::spec::Env::new(&ctx.repo, "c16b");
+        let mut rank = 0u64;
+        for len in 1..=16usize {
+            for large in [false, true] {
+                for comp in [crate::spec::Comp::None, crate::spec::Comp::Gzip(1)] {
+                    for key in [None, Some(crate::keys::Key::Ed25519)] {
+                        rank += 1;
+                        bd.evals += 1;
+                        let mut sp = crate::corpus::one_file();
+                        sp.name = "n".repeat(1 + len / 9);
+                        sp.license = "L".repeat(len);
+                        sp.large_files = large;
+                        sp.compression = comp.clone();
+                        sp.sign = key;
+                        let case = || json!({"built": sp.to_json()});
+                        match vlib::report::catch(|| sp.build(&env)) {
+                            Err(pn) => bd.viol(panic_violation("built-direct", &pn, case()).rank(rank)),
+                            Ok(Err(e)) => crate::ctx::machinery(&format!("c16 built-direct: {}", e)),
+                            Ok(Ok(p)) => {
+                                bd.nontrivial += 1;
+                                oracle_offsets("built-direct", &p, rank, &case, &mut bd);
+                                oracle_payload_start("built-direct", &p, rank, &case, &mut bd);
+                                let o = p.metadata.get_package_segment_offsets();
+                                bd.count(&format!("main header size ≡ {} (mod 8)", (o.payload - o.header) % 8));
+                            }
+                        }
+                    }
+                }
+            }
+        }
+    }
+    let s_bd = SubReport::new("built-direct", "A", "128 packages straight from the builder (not re-parsed): licence texts of 1..=16 characters and two name lengths (the builder's data section always ends a fixed 85 bytes after a 4-aligned entry, so its size is ≡ 1 or 5 mod 8; both occur, see the outcome counts) × {ordinary, forced large-file layout with 64-bit size entries} × {uncompressed, gzip} × {unsigned, signed}: reported offsets vs the written bytes, payload length vs the in-memory payload, and the archive's magic number at the reported payload offset", bd);
     let s2 = crate::c01::run_assets(ctx, "assets");
     let s3 = crate::corpus::run_shared(ctx, "corpus", &["C16"]);
     for s in [&s1, &s3] {
@@ -116,7 +153,7 @@ pub fn run(ctx: &Ctx) -> i32 {
     }
     ctx.finish(
         "exploration",
-        vec![s1, s_dr, s_ut, s_th, s_ts, s_et, s_ld, s_api, s2, s3],
+        vec![s1, s_dr, s_ut, s_th, s_ts, s_et, s_ld, s_se, s_api, s_bd, s2, s3],
         &["offset arithmetic is exercised for every signature-store residue mod 8; header sizes beyond the enumerated ones are covered by the assets and the corpus only"],
         vec![],
     )
